@@ -114,8 +114,12 @@ class Ref:
                 if isinstance(c[1], str):
                     cenv[c[1]] = item
                 else:
-                    a, b = item
-                    cenv[c[1][0]], cenv[c[1][1]] = a, b
+                    if c[1][1].startswith("#* "):
+                        a, *b = item
+                        cenv[c[1][0]], cenv[c[1][1][3:]] = a, b
+                    else:
+                        a, b = item
+                        cenv[c[1][0]], cenv[c[1][1]] = a, b
                 sig = yield from self.run(idx + 1, cenv, chain)
                 if sig == "break":
                     if outermost:
